@@ -17,14 +17,15 @@ import (
 
 	utls "github.com/refraction-networking/utls"
 	"github.com/wi1dcard/fingerproxy"
-	fp "github.com/wi1dcard/fingerproxy/pkg/fingerprint"
-	"github.com/wi1dcard/fingerproxy/pkg/metadata"
 	"github.com/wi1dcard/fingerproxy/pkg/reverseproxy"
 	"verif/bubble"
 	"verif/ev"
 	"verif/mc"
+	"verif/ref/chello"
 	"verif/ref/h2fpref"
 	"verif/ref/h2wire"
+	"verif/ref/ja3ref"
+	"verif/ref/ja4ref"
 )
 
 // stub injector: outcome is chosen per request by the path segment for its index: v (value), e (empty), x (error)
@@ -191,18 +192,17 @@ func runCases(t *testing.T, rep *ev.Report, set string, inj []reverseproxy.Heade
 			if expectDefault {
 				// default injectors: the value is a function of this client's own connection
 				expect = map[string]*string{}
-				md := &metadata.Metadata{ClientHelloRecord: cl.FirstRecord()}
-				j3, err3 := fp.JA3Fingerprint(md)
-				j4, err4 := fp.JA4Fingerprint(md)
-				if err3 == nil {
+				// independent references (own parser + ja3ref / ja4ref), not the code under test
+				if p, perr := chello.Parse(cl.FirstRecord()); perr == nil {
+					j3 := ja3ref.Admissible(p)[0]
 					expect["X-JA3-Fingerprint"] = &j3
+					j4 := ja4ref.Of(p).Strings()
+					if len(j4) > 0 {
+						expect["X-JA4-Fingerprint"] = &j4[0]
+					}
 				} else {
-					expect["X-JA3-Fingerprint"] = nil
-				}
-				if err4 == nil {
-					expect["X-JA4-Fingerprint"] = &j4
-				} else {
-					expect["X-JA4-Fingerprint"] = nil
+					rep.HarnessError("reference parser rejected the client's hello: %v", perr)
+					return
 				}
 				if rc.proto == "h2" {
 					s := ref.String(-1)
